@@ -22,8 +22,8 @@ INITIAL, ZERORTT, HANDSHAKE, RETRY = 0, 1, 2, 3
 
 
 def varint(v: int, width=None) -> bytes:
-    if width is None:
-        width = 1 if v < 64 else 2 if v < 16384 else 4 if v < 2 ** 30 else 8
+    minimal = 1 if v < 64 else 2 if v < 16384 else 4 if v < 2 ** 30 else 8
+    width = minimal if width is None else max(width, minimal)      # a requested (non-minimal) width is a lower bound
     assert v < 1 << (8 * width - 2), (v, width)
     return (v | ({1: 0, 2: 1, 4: 2, 8: 3}[width] << (8 * width - 2))).to_bytes(width, "big")
 
